@@ -237,7 +237,7 @@ def glue_says_csize_short(sub):
     return False
 
 
-def judge(ctx, subjects, results, crashes, prefix="slice"):
+def judge(ctx, subjects, results, crashes, prefix="slice", with_final=True):
     """Turn driver results into violations; returns the recorded histories for trace validation."""
     byid = {s["id"]: s for s in subjects}
     hists = []
@@ -271,6 +271,8 @@ def judge(ctx, subjects, results, crashes, prefix="slice"):
                 key = "%s:stream_decoder_mt:rejected-input:total_in" % prefix
             if s["entry"] == "microlzma_decoder" and mm["what"] == "total_in" and ":inexact" in s["cls"]:
                 key = "%s:microlzma_decoder:inexact-size:total_in" % prefix
+            if s["entry"] == "file_info_decoder" and mm["what"] == "total_in" and (mm["obs"].get("seeks") or mm["one"].get("seeks")):
+                key = "%s:file_info_decoder:seek:total_in" % prefix
             if "ret" not in mm["what"].split("+") and mm["one"]["ret"] == "DATA_ERROR" and not s["cls"].startswith("valid") \
                and glue_says_csize_short(s):
                 key = "%s:lzma2:csize-short:rejected-input" % prefix
@@ -325,8 +327,9 @@ def judge(ctx, subjects, results, crashes, prefix="slice"):
             body = t["events"][:-2] if len(t["events"]) >= 2 else t["events"]
             f = t["final"]
             evs += body
-            evs.append({"e": "Final", "ret": f["ret"], "tin": f["tin"], "olen": f["olen"], "dig": f["dig"],
-                        "dlen": sum(e["uout"] for e in body)})
+            if with_final:
+                evs.append({"e": "Final", "ret": f["ret"], "tin": f["tin"], "olen": f["olen"], "dig": f["dig"],
+                            "dlen": sum(e["uout"] for e in body)})
             evs += tail
             (bad_hists if bkey else hists).append(("%s|%s|%s" % (s["entry"], short_cls(s["cls"]), bkey or ""), evs))
     return hists, bad_hists, BAD
